@@ -34,6 +34,23 @@ func hostileBytes(n J, b *bytes.Buffer) {
 			b.WriteString(`"x"`)
 			b.WriteString(strings.Repeat("}", d))
 		}
+	case "wide":
+		d := int(num(n["n"]))
+		b.WriteByte('[')
+		for i := 0; i < d; i++ {
+			if i > 0 {
+				b.WriteByte(',')
+			}
+			switch n["kind"] {
+			case "iri":
+				fmt.Fprintf(b, `"https://example.com/w/%d"`, i)
+			case "obj":
+				fmt.Fprintf(b, `{"id":"https://example.com/w/%d","type":"Note"}`, i)
+			default:
+				fmt.Fprintf(b, `{"type":"Note","name":"w%d"}`, i)
+			}
+		}
+		b.WriteByte(']')
 	case "chain":
 		d := int(num(n["n"]))
 		terms := []string{n["a"].(string), n["b"].(string)}
@@ -218,7 +235,13 @@ func c04Call(ep entryPoint, data []byte, caseID string) J {
 		r.err = err
 		if err == nil {
 			r.value = true
-			r.follow = followUps(v)
+			// wide documents: only the decoder's cost is judged (comparing two long lists is quadratic by design, and the
+			// statement demands of the follow-ups only that they do not panic)
+			if !strings.Contains(caseID, ":wide-") {
+				r.follow = followUps(v)
+			} else {
+				r.follow = []J{}
+			}
 		}
 	}()
 	timer := time.NewTimer(8 * time.Second)
@@ -367,6 +390,19 @@ func init() {
 					}
 				}
 				evs = append(evs, ev)
+				if ev["outcome"] == "hang" {
+					// the call is still running in its goroutine and would go on burning a core (or memory) under every later
+					// case: report what was seen and let the parent continue with the next case in a fresh process
+					for _, ev := range evs {
+						b, _ := json.Marshal(ev)
+						w.Write(b)
+						w.WriteByte('\n')
+					}
+					w.Flush()
+					f.Close()
+					fmt.Fprintf(prog, "hung %d\n", i)
+					os.Exit(3)
+				}
 			}
 			runtime.ReadMemStats(&c1)
 			if int(c1.TotalAlloc-c0.TotalAlloc) > 2000000 {
@@ -407,7 +443,7 @@ func init() {
 				out := fmt.Sprintf("%s.part%d", args[2], k)
 				os.Remove(out)
 				prog := out + ".progress"
-				start, crashes, total := 0, 0, -1
+				start, crashes, total, hangs := 0, 0, -1, 0
 				for {
 					cmd := exec.Command(self, "c04-child", args[0], args[1], fmt.Sprint(start), out, prog, fmt.Sprint(k), fmt.Sprint(K))
 					cmd.Env = append(os.Environ(), "GOMAXPROCS=2")
@@ -418,6 +454,16 @@ func init() {
 					if strings.HasPrefix(last, "done") {
 						fmt.Sscanf(last, "done %d", &total)
 						break
+					}
+					if strings.HasPrefix(last, "hung") { // a watchdog expiry: the event is already in the output
+						var idx int
+						fmt.Sscanf(last, "hung %d", &idx)
+						start = idx + 1
+						if hangs++; hangs > 400 {
+							results <- result{err: fmt.Errorf("more than 400 hanging cases in one stride")}
+							return
+						}
+						continue
 					}
 					if err == nil {
 						results <- result{err: fmt.Errorf("child ended without finishing: %s", string(o))}
